@@ -88,3 +88,17 @@ def set_check(run, pid, tier, seed, replay, n_quick, n_thorough, judge, identity
                               "(stale / current status, paused mismatch, stale status.remotePhases uid, deleting, foreign controller, "
                               "other class, terminating namespace); distinct = (level, lifecycle/flavor, outcome, request kinds in order)")
     run.cov["samples"] = samples
+
+
+def controller_stage(run, pid, tier, seed, judge, identity, n_quick=400, n_thorough=6000, replay_sc=None):
+    """C01 / C02 at the controller level: generated worlds (a third of them handovers with two declared previous
+    revisions) through the real (Cluster)ObjectSet controller, its member requests judged by the phase-level monitors."""
+    if replay_sc is not None:
+        scs = [replay_sc]
+    else:
+        n = n_quick if tier == "quick" else n_thorough
+        scs = setgen.gen(seed, n - n // 3, salt=pid + "c") + setgen.gen_handover(seed, n // 3, salt=pid + "h")
+    res = set_stage(run, pid, scs, judge, identity)
+    run.cov["evaluations"] = run.cov.get("evaluations", 0) + len(res)
+    run.cov["controller_stage"] = {"evaluations": len(res), "judge": judge}
+    return res
